@@ -9,7 +9,7 @@ Normalisation taken from docs/source/reference/verilog_support.rst: ports of und
 written as inout ("defaults to inout on write"), so UNDEFINED before == INOUT after.  From IEEE 1364 3.7.1: the leading
 backslash of an escaped identifier is not part of the name, so a/b (flatten) == \\a/b (re-read).
 """
-import sys, json, os
+import sys, json, os, random
 import rtcommon as R
 import render_verilog as V
 
@@ -131,6 +131,9 @@ def main():
         return run.finish()
     for seed in cfg.get('seeds', []):
         ad = R.gen_hier(seed, 'verilog')
+        # "aliased header ports": besides gen_hier's single-bit breakouts onto 1-bit nets, half of the designs get aliases onto
+        # bits of vector nets - the net named like the port (permuted / re-based / sub-range / shared by two ports) or another one
+        V.alias_shapes(ad, random.Random('c04-alias:%s' % seed), **(cfg.get('alias_shapes') or {}))
         for v in range(cfg.get('styles', 1)):
             style = V.make_style(seed, v)
             style.update(cfg.get('style_override') or {})
